@@ -694,7 +694,7 @@ private structure NLD [DecidableEq Cmd] (P : NLParams Ev Cmd Reply) (Hc : Handle
     (ch0 : Layer σc Ev Cmd Reply) (L : Layer (NLState σc Ev Cmd Reply) Ev Cmd Reply) : Prop where
   pre : L.st.handed = false → L.st.child = ch0 ∧ L.st.events = handled L.log ∧
           ∀ c k, L.paused = some (c, k) → k = nlAskCont P Hc nil L.st
-  post : L.st.handed = true → L.paused = none ∧ L.st.child.arrived = handled L.log ∧ L.st.events = []
+  post : L.st.handed = true → L.paused = none ∧ L.st.child.arrived = ch0.arrived ++ handled L.log ∧ L.st.events = []
 
 private theorem nld_fresh [DecidableEq Cmd] (P : NLParams Ev Cmd Reply) (Hc : Handler σc Ev Cmd Reply) (nil : Reply)
     (ch0 : Layer σc Ev Cmd Reply) (L : Layer (NLState σc Ev Cmd Reply) Ev Cmd Reply) (ev : Event Ev Cmd Reply)
@@ -752,7 +752,7 @@ private theorem nld_drain [DecidableEq Cmd] (P : NLParams Ev Cmd Reply) (Hc : Ha
     | none => simp only [drain, hp]; exact ih _ (nld_fresh P Hc nil ch0 L ev h)
 
 private theorem nld_step [DecidableEq Cmd] (P : NLParams Ev Cmd Reply) (Hc : Handler σc Ev Cmd Reply) (nil : Reply)
-    (ch0 : Layer σc Ev Cmd Reply) (h0 : ch0.arrived = [])
+    (ch0 : Layer σc Ev Cmd Reply)
     (L : Layer (NLState σc Ev Cmd Reply) Ev Cmd Reply) (ev : Event Ev Cmd Reply)
     (h : NLD P Hc nil ch0 L) : NLD P Hc nil ch0 (handleEvent (nlHandler P Hc nil) nil L ev).1 := by
   have h' : NLD P Hc nil ch0 { L with arrived := L.arrived ++ [ev] } := ⟨h.pre, h.post⟩
@@ -785,47 +785,50 @@ private theorem nld_step [DecidableEq Cmd] (P : NLParams Ev Cmd Reply) (Hc : Han
         · intro hc; rw [hr] at hc; simp at hc
         · intro _
           rw [hr]
-          rw [h1, h2, h0] at ra
+          rw [h1, h2] at ra
           simp [handled_append, handled, (emits_facts _).1, h1, h2, ra]
     · rw [he_other _ nil L c k ev hp (fun r h => hm ⟨r, h⟩)]
       exact ⟨fun a => by simpa [enqueue, hp] using h.pre a, fun a => by simpa [enqueue, hp] using h.post a⟩
 
 /-- after the hand-over: NextLayer is transparent -/
-private structure NLPost (L : Layer (NLState σc Ev Cmd Reply) Ev Cmd Reply) : Prop where
+private structure NLPost (ch0 : Layer σc Ev Cmd Reply) (L : Layer (NLState σc Ev Cmd Reply) Ev Cmd Reply) : Prop where
   handed : L.st.handed = true
   idle : L.paused = none
   noq : L.queue = []
   noev : L.st.events = []
-  part : Interleave L.st.child.arrived (resumed L.log) L.arrived
+  part : ∃ xs, L.st.child.arrived = ch0.arrived ++ xs ∧ Interleave xs (resumed L.log) L.arrived
 
 private theorem nl_step [DecidableEq Cmd] (P : NLParams Ev Cmd Reply) (Hc : Handler σc Ev Cmd Reply) (nil : Reply)
-    (ch0 : Layer σc Ev Cmd Reply) (h0 : ch0.arrived = [])
+    (ch0 : Layer σc Ev Cmd Reply)
     (L : Layer (NLState σc Ev Cmd Reply) Ev Cmd Reply) (ev : Event Ev Cmd Reply)
-    (h : (L.st.handed = false ∧ Inv L ∧ NLD P Hc nil ch0 L) ∨ NLPost L) :
+    (h : (L.st.handed = false ∧ Inv L ∧ NLD P Hc nil ch0 L) ∨ NLPost ch0 L) :
     ((nlHandleEvent P Hc nil L ev).1.st.handed = false ∧ Inv (nlHandleEvent P Hc nil L ev).1 ∧
-        NLD P Hc nil ch0 (nlHandleEvent P Hc nil L ev).1) ∨ NLPost (nlHandleEvent P Hc nil L ev).1 := by
+        NLD P Hc nil ch0 (nlHandleEvent P Hc nil L ev).1) ∨ NLPost ch0 (nlHandleEvent P Hc nil L ev).1 := by
   rcases h with ⟨hh, hi, hd⟩ | hpost
   · have e : nlHandleEvent P Hc nil L ev = handleEvent (nlHandler P Hc nil) nil L ev := by
       simp [nlHandleEvent, hh]
     rw [e]
     obtain ⟨i', _, _⟩ := step_facts (nlHandler P Hc nil) nil L ev hi
-    have d' := nld_step P Hc nil ch0 h0 L ev hd
+    have d' := nld_step P Hc nil ch0 L ev hd
     cases hn : (handleEvent (nlHandler P Hc nil) nil L ev).1.st.handed with
     | false => exact Or.inl ⟨rfl, i', d'⟩
     | true =>
       obtain ⟨p1, p2, p3⟩ := d'.post hn
       have q := i'.idle p1
       have ip := i'.part
-      rw [q, List.append_nil, ← p2] at ip
-      exact Or.inr ⟨hn, p1, q, p3, ip⟩
+      rw [q, List.append_nil] at ip
+      exact Or.inr ⟨hn, p1, q, p3, ⟨_, p2, ip⟩⟩
   · obtain ⟨a, b, c, d, e⟩ := hpost
     refine Or.inr ⟨?_, ?_, ?_, ?_, ?_⟩
     · simp [nlHandleEvent, a]
     · simp [nlHandleEvent, a, b]
     · simp [nlHandleEvent, a, c]
     · simp [nlHandleEvent, a, d]
-    · simp only [nlHandleEvent, a, if_true, he_arrived]
-      exact e.snoc_left ev
+    · obtain ⟨xs, hx, e'⟩ := e
+      refine ⟨xs ++ [ev], ?_, ?_⟩
+      · simp only [nlHandleEvent, a, if_true, he_arrived, hx, List.append_assoc]
+      · simp only [nlHandleEvent, a, if_true]
+        exact e'.snoc_left ev
 
 
 private theorem nl_arrived [DecidableEq Cmd] (P : NLParams Ev Cmd Reply) (Hc : Handler σc Ev Cmd Reply) (nil : Reply)
@@ -836,18 +839,42 @@ private theorem nl_arrived [DecidableEq Cmd] (P : NLParams Ev Cmd Reply) (Hc : H
   | false => simp [nlHandleEvent, hh, he_arrived]
 
 private theorem nl_sched [DecidableEq Cmd] (P : NLParams Ev Cmd Reply) (Hc : Handler σc Ev Cmd Reply) (nil : Reply)
-    (ch0 : Layer σc Ev Cmd Reply) (h0 : ch0.arrived = []) (evs : List (Event Ev Cmd Reply)) :
+    (ch0 : Layer σc Ev Cmd Reply) (evs : List (Event Ev Cmd Reply)) :
     ∀ (L : Layer (NLState σc Ev Cmd Reply) Ev Cmd Reply),
-    ((L.st.handed = false ∧ Inv L ∧ NLD P Hc nil ch0 L) ∨ NLPost L) →
+    ((L.st.handed = false ∧ Inv L ∧ NLD P Hc nil ch0 L) ∨ NLPost ch0 L) →
     (((nlRunSched P Hc nil L evs).st.handed = false ∧ Inv (nlRunSched P Hc nil L evs) ∧
-        NLD P Hc nil ch0 (nlRunSched P Hc nil L evs)) ∨ NLPost (nlRunSched P Hc nil L evs)) ∧
+        NLD P Hc nil ch0 (nlRunSched P Hc nil L evs)) ∨ NLPost ch0 (nlRunSched P Hc nil L evs)) ∧
     (nlRunSched P Hc nil L evs).arrived = L.arrived ++ evs := by
   induction evs with
   | nil => intro L h; simpa [nlRunSched] using h
   | cons ev rest ih =>
     intro L h
-    obtain ⟨a, b⟩ := ih _ (nl_step P Hc nil ch0 h0 L ev h)
+    obtain ⟨a, b⟩ := ih _ (nl_step P Hc nil ch0 L ev h)
     exact ⟨a, by rw [nlRunSched, b, nl_arrived]; simp⟩
+
+/-- `nextlayer_replay_in_order` without any assumption on the candidate child: whatever `ch0` has already
+    received stays a prefix; what it receives through NextLayer is the sequence `xs` -/
+theorem nextlayer_replay_in_order_any [DecidableEq Cmd] (P : NLParams Ev Cmd Reply) (Hc : Handler σc Ev Cmd Reply)
+    (nil : Reply) (ch0 : Layer σc Ev Cmd Reply) (evs : List (Event Ev Cmd Reply)) :
+    let L := nlRunSched P Hc nil (nlInit ch0) evs
+    (L.st.handed = false → L.st.child = ch0 ∧ Interleave (L.st.events ++ L.queue) (resumed L.log) evs) ∧
+    (L.st.handed = true → (∃ xs, L.st.child.arrived = ch0.arrived ++ xs ∧ Interleave xs (resumed L.log) evs) ∧
+        L.st.events = [] ∧ L.queue = [] ∧ L.paused = none) := by
+  have hinit : (nlInit ch0 : Layer (NLState σc Ev Cmd Reply) Ev Cmd Reply).st.handed = false ∧
+      Inv (nlInit ch0 : Layer (NLState σc Ev Cmd Reply) Ev Cmd Reply) ∧ NLD P Hc nil ch0 (nlInit ch0) :=
+    ⟨rfl, inv_init _, ⟨fun _ => by simp [nlInit, Layer.init, handled], fun h => by simp [nlInit, Layer.init] at h⟩⟩
+  obtain ⟨h, ha⟩ := nl_sched P Hc nil ch0 evs (nlInit ch0) (Or.inl hinit)
+  have ha' : (nlRunSched P Hc nil (nlInit ch0) evs).arrived = evs := by simpa [nlInit, Layer.init] using ha
+  rcases h with ⟨hh, hi, hd⟩ | hp
+  · refine ⟨fun _ => ?_, fun c => (by rw [hh] at c; cases c)⟩
+    obtain ⟨d1, d2, _⟩ := hd.pre hh
+    have := hi.part
+    rw [ha', ← d2] at this
+    exact ⟨d1, this⟩
+  · refine ⟨fun c => (by rw [hp.handed] at c; cases c), fun _ => ?_⟩
+    obtain ⟨xs, hx, e⟩ := hp.part
+    rw [ha'] at e
+    exact ⟨⟨xs, hx, e⟩, hp.noev, hp.noq, hp.idle⟩
 
 /-- **Events that arrive before a protocol has been chosen reach the chosen layer in arrival order.**
     For every child handler, every classification of events, every decision function and every schedule
@@ -864,23 +891,12 @@ theorem nextlayer_replay_in_order [DecidableEq Cmd] (P : NLParams Ev Cmd Reply) 
     (L.st.handed = false → L.st.child = ch0 ∧ Interleave (L.st.events ++ L.queue) (resumed L.log) evs) ∧
     (L.st.handed = true → Interleave L.st.child.arrived (resumed L.log) evs ∧ L.st.events = [] ∧
         L.queue = [] ∧ L.paused = none) := by
-  have hinit : (nlInit ch0 : Layer (NLState σc Ev Cmd Reply) Ev Cmd Reply).st.handed = false ∧
-      Inv (nlInit ch0 : Layer (NLState σc Ev Cmd Reply) Ev Cmd Reply) ∧ NLD P Hc nil ch0 (nlInit ch0) :=
-    ⟨rfl, inv_init _, ⟨fun _ => by simp [nlInit, Layer.init, handled], fun h => by simp [nlInit, Layer.init] at h⟩⟩
-  obtain ⟨h, ha⟩ := nl_sched P Hc nil ch0 h0 evs (nlInit ch0) (Or.inl hinit)
-  have ha' : (nlRunSched P Hc nil (nlInit ch0) evs).arrived = evs := by simpa [nlInit, Layer.init] using ha
-  rcases h with ⟨hh, hi, hd⟩ | hp
-  · refine ⟨fun _ => ?_, fun c => (by rw [hh] at c; cases c)⟩
-    obtain ⟨d1, d2, _⟩ := hd.pre hh
-    have := hi.part
-    rw [ha', ← d2] at this
-    exact ⟨d1, this⟩
-  · refine ⟨fun c => (by rw [hp.handed] at c; cases c), fun _ => ?_⟩
-    have := hp.part
-    rw [ha'] at this
-    exact ⟨this, hp.noev, hp.noq, hp.idle⟩
-
-
+  have h := nextlayer_replay_in_order_any P Hc nil ch0 evs
+  refine ⟨h.1, fun hh => ?_⟩
+  obtain ⟨⟨xs, hx, e⟩, r⟩ := h.2 hh
+  rw [h0, List.nil_append] at hx
+  rw [hx]
+  exact ⟨e, r⟩
 
 /-! ### replay of buffered events, handler re-binding, arbitrary trees (round 3) -/
 
@@ -1107,9 +1123,9 @@ private theorem nlq_step [DecidableEq Cmd] (Q : Layer σc Ev Cmd Reply → Prop)
     are replayed, while the events queued during the hook are forwarded through the re-bound `_handle_event`,
     and after NextLayer has swapped itself out.  Hence every property `Q` of the child that `handle_event`
     preserves holds of it after every schedule delivered to the NextLayer. -/
-theorem nextlayer_child_invariant [DecidableEq Cmd] (Q : Layer σc Ev Cmd Reply → Prop) (P : NLParams Ev Cmd Reply)
+theorem nextlayer_child_invariant_any [DecidableEq Cmd] (Q : Layer σc Ev Cmd Reply → Prop) (P : NLParams Ev Cmd Reply)
     (Hc : Handler σc Ev Cmd Reply) (nil : Reply) (hQ : ∀ ch ev, Q ch → Q (handleEvent Hc nil ch ev).1)
-    (ch0 : Layer σc Ev Cmd Reply) (h0 : ch0.arrived = []) (hq0 : Q ch0) (evs : List (Event Ev Cmd Reply)) :
+    (ch0 : Layer σc Ev Cmd Reply) (hq0 : Q ch0) (evs : List (Event Ev Cmd Reply)) :
     Q (nlRunSched P Hc nil (nlInit ch0) evs).st.child := by
   have key : ∀ (evs : List (Event Ev Cmd Reply)) (L : Layer (NLState σc Ev Cmd Reply) Ev Cmd Reply),
       Q L.st.child → (L.st.handed = false → NLD P Hc nil ch0 L) → Q (nlRunSched P Hc nil L evs).st.child := by
@@ -1128,9 +1144,345 @@ theorem nextlayer_child_invariant [DecidableEq Cmd] (Q : Layer σc Ev Cmd Reply 
         have e : nlHandleEvent P Hc nil L ev = handleEvent (nlHandler P Hc nil) nil L ev := by
           simp [nlHandleEvent, hh]
         rw [e]
-        exact ih _ (nlq_step Q P Hc nil hQ ch0 L ev (hd hh) hq) (fun _ => nld_step P Hc nil ch0 h0 L ev (hd hh))
+        exact ih _ (nlq_step Q P Hc nil hQ ch0 L ev (hd hh) hq) (fun _ => nld_step P Hc nil ch0 L ev (hd hh))
   exact key evs (nlInit ch0) (by simpa [nlInit, Layer.init] using hq0)
     (fun _ => ⟨fun _ => by simp [nlInit, Layer.init, handled], fun h => by simp [nlInit, Layer.init] at h⟩)
+
+/-- the earlier form (kept): for a candidate child that has not received anything yet -/
+theorem nextlayer_child_invariant [DecidableEq Cmd] (Q : Layer σc Ev Cmd Reply → Prop) (P : NLParams Ev Cmd Reply)
+    (Hc : Handler σc Ev Cmd Reply) (nil : Reply) (hQ : ∀ ch ev, Q ch → Q (handleEvent Hc nil ch ev).1)
+    (ch0 : Layer σc Ev Cmd Reply) (_h0 : ch0.arrived = []) (hq0 : Q ch0) (evs : List (Event Ev Cmd Reply)) :
+    Q (nlRunSched P Hc nil (nlInit ch0) evs).st.child :=
+  nextlayer_child_invariant_any Q P Hc nil hQ ch0 hq0 evs
+
+
+/-! ### the layer behaves like a sequential blocking interpreter (round 4) -/
+
+/-- result of the reference interpreter -/
+structure SeqCfg (σ Ev Cmd Reply : Type) where
+  st      : σ
+  waiting : Option (Cmd × (Reply → Gen σ Cmd Reply))   -- the handler in progress, blocked on this command
+  log     : List (Entry Ev Cmd Reply)
+  out     : Out Cmd
+  todo    : List (Event Ev Cmd Reply)                   -- events whose handler has not been started
+  unused  : List Reply
+
+/-- **Reference semantics: blocking code.**  One thread of control, no queue, no command matching, no
+    interleaving: `xs` are the events to handle, `rs` the answers to the blocking commands in the order the
+    commands are issued.  If a handler is in progress and blocked, it takes the next answer and continues
+    (`run` = execute until the handler returns or blocks again); only when no handler is in progress is the
+    next event taken and its handler started — the handler bound in the CURRENT state.  It stops when it needs
+    an answer / an event that is not there. -/
+def seq (H : Handler σ Ev Cmd Reply) (nil : Reply) (st : σ) (waiting : Option (Cmd × (Reply → Gen σ Cmd Reply)))
+    (log : List (Entry Ev Cmd Reply)) (out : Out Cmd) (xs : List (Event Ev Cmd Reply)) (rs : List Reply) :
+    SeqCfg σ Ev Cmd Reply :=
+  match waiting with
+  | some (c, k) =>
+    match rs with
+    | [] => ⟨st, some (c, k), log, out, xs, []⟩
+    | r :: rs' =>
+      seq H nil (run (Ev := Ev) nil (k r)).st (run (Ev := Ev) nil (k r)).paused
+        (log ++ .resume c r :: (run (Ev := Ev) nil (k r)).ents) (out ++ (run (Ev := Ev) nil (k r)).out) xs rs'
+  | none =>
+    match xs with
+    | [] => ⟨st, none, log, out, [], rs⟩
+    | ev :: xs' =>
+      seq H nil (run (Ev := Ev) nil (H st ev)).st (run (Ev := Ev) nil (H st ev)).paused
+        (log ++ .handle ev :: (run (Ev := Ev) nil (H st ev)).ents) (out ++ (run (Ev := Ev) nil (H st ev)).out) xs' rs
+termination_by xs.length + rs.length
+
+/-- the answers carried by a list of completions -/
+def repliesOf : List (Event Ev Cmd Reply) → List Reply
+  | [] => []
+  | .completed _ r :: t => r :: repliesOf t
+  | .plain _ :: t => repliesOf t
+
+/-- the schedule runner that also collects everything `handle_event` emitted -/
+def runSchedOut [DecidableEq Cmd] (H : Handler σ Ev Cmd Reply) (nil : Reply) :
+    Layer σ Ev Cmd Reply → Out Cmd → List (Event Ev Cmd Reply) → Layer σ Ev Cmd Reply × Out Cmd
+  | L, o, [] => (L, o)
+  | L, o, ev :: evs => runSchedOut H nil (handleEvent H nil L ev).1 (o ++ (handleEvent H nil L ev).2) evs
+
+theorem runSchedOut_fst [DecidableEq Cmd] (H : Handler σ Ev Cmd Reply) (nil : Reply)
+    (evs : List (Event Ev Cmd Reply)) : ∀ (L : Layer σ Ev Cmd Reply) (o : Out Cmd),
+    (runSchedOut H nil L o evs).1 = runSched H nil L evs := by
+  induction evs with
+  | nil => intro L o; rfl
+  | cons ev rest ih => intro L o; simp only [runSchedOut, runSched]; exact ih _ _
+
+private theorem repliesOf_append (a b : List (Event Ev Cmd Reply)) :
+    repliesOf (a ++ b) = repliesOf a ++ repliesOf b := by
+  induction a with
+  | nil => rfl
+  | cons e t ih => cases e <;> simp [repliesOf, ih]
+
+/-- the interpreter is compositional: running it on longer inputs = running it on the shorter ones and
+    continuing from where it stopped with what it had left plus the extra input -/
+private theorem seq_append (H : Handler σ Ev Cmd Reply) (nil : Reply) (ys : List (Event Ev Cmd Reply)) (rs2 : List Reply) :
+    ∀ (n : Nat) (st : σ) (w : Option (Cmd × (Reply → Gen σ Cmd Reply))) (log : List (Entry Ev Cmd Reply))
+      (out : Out Cmd) (xs : List (Event Ev Cmd Reply)) (rs : List Reply), xs.length + rs.length = n →
+    seq H nil st w log out (xs ++ ys) (rs ++ rs2) =
+      seq H nil (seq H nil st w log out xs rs).st (seq H nil st w log out xs rs).waiting
+        (seq H nil st w log out xs rs).log (seq H nil st w log out xs rs).out
+        ((seq H nil st w log out xs rs).todo ++ ys) ((seq H nil st w log out xs rs).unused ++ rs2) := by
+  intro n
+  induction n with
+  | zero =>
+    intro st w log out xs rs hn
+    have hx : xs = [] := List.eq_nil_of_length_eq_zero (by omega)
+    have hr : rs = [] := List.eq_nil_of_length_eq_zero (by omega)
+    subst hx; subst hr
+    cases w with
+    | none => rw [seq.eq_def (xs := []) (rs := [])]
+    | some ck => obtain ⟨c, k⟩ := ck; rw [seq.eq_def (xs := []) (rs := [])]
+  | succ n ih =>
+    intro st w log out xs rs hn
+    cases w with
+    | some ck =>
+      obtain ⟨c, k⟩ := ck
+      cases rs with
+      | nil => rw [seq.eq_def (xs := xs) (rs := [])]
+      | cons r rs' =>
+        rw [seq.eq_def (xs := xs ++ ys) (rs := (r :: rs') ++ rs2), seq.eq_def (xs := xs) (rs := r :: rs')]
+        simp only [List.cons_append]
+        exact ih _ _ _ _ xs rs' (by simp at hn; omega)
+    | none =>
+      cases xs with
+      | nil => rw [seq.eq_def (xs := []) (rs := rs)]
+      | cons ev xs' =>
+        rw [seq.eq_def (xs := (ev :: xs') ++ ys) (rs := rs ++ rs2), seq.eq_def (xs := ev :: xs') (rs := rs)]
+        simp only [List.cons_append]
+        exact ih _ _ _ _ xs' rs (by simp at hn; omega)
+
+
+/-- the replay loop of `__continue` is the reference interpreter run on the queue with no answers available -/
+private theorem seq_drain [DecidableEq Cmd] (H : Handler σ Ev Cmd Reply) (nil : Reply)
+    (q : List (Event Ev Cmd Reply)) : ∀ (L : Layer σ Ev Cmd Reply) (o : Out Cmd),
+    seq H nil L.st L.paused L.log o q [] =
+      ⟨(drain H nil L q).1.st, (drain H nil L q).1.paused, (drain H nil L q).1.log, o ++ (drain H nil L q).2,
+       (drain H nil L q).1.queue, []⟩ := by
+  induction q with
+  | nil =>
+    intro L o
+    rw [seq.eq_def]
+    cases hp : L.paused with
+    | none => simp [drain, hp]
+    | some ck => obtain ⟨c, k⟩ := ck; simp [drain, hp]
+  | cons ev rest ih =>
+    intro L o
+    rw [seq.eq_def]
+    cases hp : L.paused with
+    | some ck => obtain ⟨c, k⟩ := ck; simp [drain, hp]
+    | none =>
+      simp only [drain, hp]
+      have := ih (handleFresh H nil L ev).1 (o ++ (handleFresh H nil L ev).2)
+      simp only [handleFresh] at this ⊢
+      rw [this]
+      simp
+
+/-- the invariant: the reference interpreter, fed the events handled-or-queued so far and the answers consumed
+    so far, is in exactly the layer's configuration -/
+private def SeqInv (H : Handler σ Ev Cmd Reply) (nil : Reply) (s0 : σ) (L : Layer σ Ev Cmd Reply) (o : Out Cmd) : Prop :=
+  seq H nil s0 none [] [] (handled L.log ++ L.queue) (repliesOf (resumed L.log)) =
+    ⟨L.st, L.paused, L.log, o, L.queue, []⟩
+
+private theorem seqinv_step [DecidableEq Cmd] (H : Handler σ Ev Cmd Reply) (nil : Reply) (s0 : σ)
+    (L : Layer σ Ev Cmd Reply) (o : Out Cmd) (ev : Event Ev Cmd Reply) (hi : Inv L) (hs : SeqInv H nil s0 L o) :
+    SeqInv H nil s0 (handleEvent H nil L ev).1 (o ++ (handleEvent H nil L ev).2) := by
+  unfold SeqInv at hs ⊢
+  obtain ⟨hpart, hidle, hdisc⟩ := hi
+  cases hp : L.paused with
+  | none =>
+    have hq := hidle hp
+    have hd' : scan none L.log = some none := by simpa [hp] using hdisc
+    obtain ⟨f1, f2, f3, f4, f5, f6⟩ := fresh_facts H nil { L with arrived := L.arrived ++ [ev] } ev hd'
+    rw [he_idle H nil L ev hp, f1, f2, f3]
+    simp only [hq, List.append_nil] at hs ⊢
+    have e := seq_append H nil [ev] [] _ s0 none [] [] (handled L.log) (repliesOf (resumed L.log)) rfl
+    rw [List.append_nil] at e
+    rw [e, hs]
+    simp only [List.nil_append, hp]
+    rw [seq.eq_def]
+    simp only [handleFresh]
+    rw [seq.eq_def]
+    cases (run (Ev := Ev) nil (H L.st ev)).paused with
+    | none => simp
+    | some ck => obtain ⟨c, k⟩ := ck; simp
+  | some pk =>
+    obtain ⟨c, k⟩ := pk
+    by_cases hm : ∃ r, ev = .completed c r
+    · obtain ⟨r, rfl⟩ := hm
+      rw [he_match H nil L c k r hp]
+      simp only [resumeWith]
+      obtain ⟨r1, r2, r3, r4⟩ := run_facts (Ev := Ev) nil (k r)
+      have hd1 : scan none (L.log ++ Entry.resume c r :: (run (Ev := Ev) nil (k r)).ents) =
+          some ((run (Ev := Ev) nil (k r)).paused.map (·.1)) := by
+        simp [scan_append, hdisc, hp, scan, scanStep, r3]
+      obtain ⟨d1, d2, d3, d4, d5, d6⟩ := drain_facts H nil L.queue
+        { L with arrived := L.arrived ++ [.completed c r], st := (run (Ev := Ev) nil (k r)).st,
+                 paused := (run (Ev := Ev) nil (k r)).paused,
+                 log := L.log ++ Entry.resume c r :: (run (Ev := Ev) nil (k r)).ents } hd1
+      rw [d1, d2]
+      simp only [handled_append, resumed_append, handled, resumed, r1, r2, List.append_nil, repliesOf_append, repliesOf]
+      have e := seq_append H nil [] [r] _ s0 none [] [] (handled L.log ++ L.queue) (repliesOf (resumed L.log)) rfl
+      rw [List.append_nil] at e
+      rw [e, hs]
+      simp only [List.nil_append, List.append_nil, hp]
+      rw [seq.eq_def]
+      simp only
+      have sd := seq_drain H nil L.queue
+        { L with arrived := L.arrived ++ [.completed c r], st := (run (Ev := Ev) nil (k r)).st,
+                 paused := (run (Ev := Ev) nil (k r)).paused,
+                 log := L.log ++ Entry.resume c r :: (run (Ev := Ev) nil (k r)).ents }
+        (o ++ (run (Ev := Ev) nil (k r)).out)
+      simp only at sd
+      rw [sd]
+      simp
+    · rw [he_other H nil L c k ev hp (fun r h => hm ⟨r, h⟩)]
+      simp only [enqueue, List.append_nil]
+      have e := seq_append H nil [ev] [] _ s0 none [] [] (handled L.log ++ L.queue) (repliesOf (resumed L.log)) rfl
+      rw [List.append_nil] at e
+      rw [← List.append_assoc, e, hs]
+      simp only [hp]
+      rw [seq.eq_def]
+      simp
+
+/-- **The layer behaves like a sequential blocking interpreter.**  For every handler, initial state and schedule
+    of arrivals `evs` (plain events and completions, in any interleaving):
+    the arrivals split, order kept, into the events `xs` (= passed to `_handle_event` so far ++ still queued)
+    and the own completions (= those that resumed the generator), and the reference interpreter `seq` — blocking
+    code: one handler at a time run to completion, each event's handler chosen in the state left by the previous
+    one, the i-th blocking command answered by the i-th reply — fed `xs` and those replies ends in EXACTLY the
+    layer's configuration: same attribute state, same suspended generator, same trace (every `_handle_event`
+    call, every emitted command, every pause and every resume with its value, in the same order), same overall
+    command output; the events it has not started are exactly `_paused_event_queue`, and no reply is left over. -/
+theorem sequential_blocking_equivalence [DecidableEq Cmd] (H : Handler σ Ev Cmd Reply) (nil : Reply) (s : σ)
+    (evs : List (Event Ev Cmd Reply)) :
+    let L := runSched H nil (Layer.init s) evs
+    let o := (runSchedOut H nil (Layer.init s) [] evs).2
+    Interleave (handled L.log ++ L.queue) (resumed L.log) evs ∧
+    seq H nil s none [] [] (handled L.log ++ L.queue) (repliesOf (resumed L.log)) =
+      ⟨L.st, L.paused, L.log, o, L.queue, []⟩ := by
+  have key : ∀ (evs : List (Event Ev Cmd Reply)) (L : Layer σ Ev Cmd Reply) (o : Out Cmd),
+      Inv L → SeqInv H nil s L o →
+      SeqInv H nil s (runSchedOut H nil L o evs).1 (runSchedOut H nil L o evs).2 := by
+    intro evs
+    induction evs with
+    | nil => intro L o _ h; exact h
+    | cons ev rest ih =>
+      intro L o hi hs
+      simp only [runSchedOut]
+      exact ih _ _ (step_facts H nil L ev hi).1 (seqinv_step H nil s L o ev hi hs)
+  have h0 : SeqInv H nil s (Layer.init s : Layer σ Ev Cmd Reply) [] := by
+    unfold SeqInv
+    simp only [Layer.init, handled, resumed, repliesOf, List.append_nil]
+    rw [seq.eq_def]
+  have := key evs (Layer.init s) [] (inv_init s) h0
+  unfold SeqInv at this
+  rw [runSchedOut_fst] at this
+  exact ⟨(handled_eq_arrivals H nil s evs).1, this⟩
+
+
+/-- whole-history form of `emitted_never_blocking_true`: nothing a layer ever emits, over a whole schedule,
+    carries `blocking is True` (so no ancestor's `__process` can pause on it) -/
+theorem all_output_never_blocking_true [DecidableEq Cmd] (H : Handler σ Ev Cmd Reply) (nil : Reply)
+    (evs : List (Event Ev Cmd Reply)) : ∀ (L : Layer σ Ev Cmd Reply) (o : Out Cmd),
+    (∀ x ∈ o, x.2 ≠ Blk.yes) → ∀ x ∈ (runSchedOut H nil L o evs).2, x.2 ≠ Blk.yes := by
+  induction evs with
+  | nil => intro L o h; exact h
+  | cons ev rest ih =>
+    intro L o h
+    simp only [runSchedOut]
+    apply ih
+    intro x hx
+    rcases List.mem_append.mp hx with hx | hx
+    · exact h x hx
+    · exact emitted_never_blocking_true H nil L ev x hx
+
+/-- consequence: the configuration reached does not depend on how events and completions were interleaved —
+    two schedules with the same event subsequence and the same reply subsequence end in the same state, with the
+    same suspended generator, the same trace and the same output -/
+theorem interleaving_irrelevant [DecidableEq Cmd] (H : Handler σ Ev Cmd Reply) (nil : Reply) (s : σ)
+    (evs evs' : List (Event Ev Cmd Reply))
+    (hx : handled (runSched H nil (Layer.init s) evs).log ++ (runSched H nil (Layer.init s) evs).queue =
+          handled (runSched H nil (Layer.init s) evs').log ++ (runSched H nil (Layer.init s) evs').queue)
+    (hr : repliesOf (resumed (runSched H nil (Layer.init s) evs).log) =
+          repliesOf (resumed (runSched H nil (Layer.init s) evs').log)) :
+    (runSched H nil (Layer.init s) evs).st = (runSched H nil (Layer.init s) evs').st ∧
+    (runSched H nil (Layer.init s) evs).paused = (runSched H nil (Layer.init s) evs').paused ∧
+    (runSched H nil (Layer.init s) evs).log = (runSched H nil (Layer.init s) evs').log ∧
+    (runSched H nil (Layer.init s) evs).queue = (runSched H nil (Layer.init s) evs').queue ∧
+    (runSchedOut H nil (Layer.init s) [] evs).2 = (runSchedOut H nil (Layer.init s) [] evs').2 := by
+  have a := (sequential_blocking_equivalence H nil s evs).2
+  have b := (sequential_blocking_equivalence H nil s evs').2
+  rw [hx, hr, b] at a
+  injection a with h1 h2 h3 h4 h5 _
+  exact ⟨h1.symm, h2.symm, h3.symm, h5.symm, h4.symm⟩
+
+
+private theorem runSched_snoc [DecidableEq Cmd] (H : Handler σ Ev Cmd Reply) (nil : Reply)
+    (xs : List (Event Ev Cmd Reply)) (ev : Event Ev Cmd Reply) : ∀ (L : Layer σ Ev Cmd Reply),
+    runSched H nil L (xs ++ [ev]) = (handleEvent H nil (runSched H nil L xs) ev).1 := by
+  induction xs with
+  | nil => intro L; rfl
+  | cons x t ih => intro L; simp only [List.cons_append, runSched]; exact ih _
+
+/-- **NextLayer is transparent for the chosen layer.**  After any schedule in which a layer was chosen, the
+    child's whole configuration (attributes, suspended generator, queue, trace) is EXACTLY what it would be had
+    it been driven directly, from its initial configuration, with the sequence `xs` of events it received — and
+    `xs` is the arrivals minus the hook completions NextLayer consumed, order kept.  Buffering, replay, the
+    re-bound `_handle_event` and the swap leave no trace in the child. -/
+theorem nextlayer_transparent [DecidableEq Cmd] (P : NLParams Ev Cmd Reply) (Hc : Handler σc Ev Cmd Reply)
+    (nil : Reply) (ch0 : Layer σc Ev Cmd Reply) (h0 : ch0.arrived = []) (evs : List (Event Ev Cmd Reply)) :
+    let L := nlRunSched P Hc nil (nlInit ch0) evs
+    L.st.child = runSched Hc nil ch0 L.st.child.arrived ∧
+    (L.st.handed = true → Interleave L.st.child.arrived (resumed L.log) evs) ∧
+    (L.st.handed = false → L.st.child = ch0) := by
+  have hq := nextlayer_child_invariant
+    (fun ch => ch = runSched Hc nil ch0 ch.arrived) P Hc nil
+    (fun ch ev h => by
+      have ha := he_arrived Hc nil ch ev
+      rw [ha, runSched_snoc, ← h]) ch0 h0 (by rw [h0]; rfl) evs
+  have hr := nextlayer_replay_in_order P Hc nil ch0 h0 evs
+  exact ⟨hq, fun h => (hr.2 h).1, fun h => (hr.1 h).1⟩
+
+/-- `nextlayer_transparent` without any assumption on the candidate child -/
+theorem nextlayer_transparent_any [DecidableEq Cmd] (P : NLParams Ev Cmd Reply) (Hc : Handler σc Ev Cmd Reply)
+    (nil : Reply) (ch0 : Layer σc Ev Cmd Reply) (evs : List (Event Ev Cmd Reply)) :
+    let L := nlRunSched P Hc nil (nlInit ch0) evs
+    ∃ xs, L.st.child.arrived = ch0.arrived ++ xs ∧ L.st.child = runSched Hc nil ch0 xs ∧
+      (L.st.handed = true → Interleave xs (resumed L.log) evs) ∧ (L.st.handed = false → xs = []) := by
+  have hq := nextlayer_child_invariant_any
+    (fun ch => ∃ xs, ch.arrived = ch0.arrived ++ xs ∧ ch = runSched Hc nil ch0 xs) P Hc nil
+    (fun ch ev h => by
+      obtain ⟨xs, ha, he⟩ := h
+      refine ⟨xs ++ [ev], ?_, ?_⟩
+      · rw [he_arrived, ha, List.append_assoc]
+      · rw [runSched_snoc, ← he]) ch0 ⟨[], by simp, rfl⟩ evs
+  have hr := nextlayer_replay_in_order_any P Hc nil ch0 evs
+  obtain ⟨xs, ha, he⟩ := hq
+  refine ⟨xs, ha, he, fun h => ?_, fun h => ?_⟩
+  · obtain ⟨⟨xs', hx', e⟩, _⟩ := hr.2 h
+    have : xs = xs' := List.append_cancel_left (ha.symm.trans hx')
+    rw [this]; exact e
+  · have hc := (hr.1 h).1
+    rw [hc] at ha
+    have : ch0.arrived ++ [] = ch0.arrived ++ xs := by simpa using ha
+    exact (List.append_cancel_left this).symm
+
+/-- hence the layer chosen by NextLayer itself behaves like a sequential blocking interpreter over the
+    events it was passed (instance of `sequential_blocking_equivalence` through `nextlayer_transparent`) -/
+theorem nextlayer_child_sequential [DecidableEq Cmd] (P : NLParams Ev Cmd Reply) (Hc : Handler σc Ev Cmd Reply)
+    (nil : Reply) (s : σc) (evs : List (Event Ev Cmd Reply)) :
+    let ch := (nlRunSched P Hc nil (nlInit (Layer.init s)) evs).st.child
+    seq Hc nil s none [] [] (handled ch.log ++ ch.queue) (repliesOf (resumed ch.log)) =
+      ⟨ch.st, ch.paused, ch.log, (runSchedOut Hc nil (Layer.init s) [] ch.arrived).2, ch.queue, []⟩ := by
+  have ht := (nextlayer_transparent P Hc nil (Layer.init s) rfl evs).1
+  have hs := (sequential_blocking_equivalence Hc nil s
+    (nlRunSched P Hc nil (nlInit (Layer.init s)) evs).st.child.arrived).2
+  simp only at ht hs ⊢
+  rw [← ht] at hs
+  exact hs
 
 end generic
 
@@ -1279,6 +1631,19 @@ example : resumed (runSched exH 0 (Layer.init ⟨0, 0⟩) exSched).log = [.compl
 -- the reply 7 reached the generator: the next command it yields carries seen = 7
 example : (handleEvent exH 0 (runSched exH 0 (Layer.init ⟨0, 0⟩) (exSched.take 3)) (.completed exCmd 7)).2
     = [(⟨4, 1, 2, 7⟩, .no)] := by decide
+
+
+-- the reference interpreter on the split of `exSched` (events / own replies): blocked code would emit the
+-- blocking command, get 7, emit the follow-up carrying 7, then handle the two other events (which yield nothing)
+example : (seq exH 0 ⟨0, 0⟩ none [] [] [.plain ⟨1, 0⟩, .plain ⟨5, 1⟩, .completed ⟨9, 9, 9, 9⟩ 3] [7]).out
+    = [(exCmd, .owned), (⟨4, 1, 2, 7⟩, .no)] := by
+  have h := (sequential_blocking_equivalence exH 0 ⟨0, 0⟩ exSched).2
+  have hh : handled (runSched exH 0 (Layer.init ⟨0, 0⟩) exSched).log ++ (runSched exH 0 (Layer.init ⟨0, 0⟩) exSched).queue
+      = [.plain ⟨1, 0⟩, .plain ⟨5, 1⟩, .completed ⟨9, 9, 9, 9⟩ 3] := by decide
+  have hr : repliesOf (resumed (runSched exH 0 (Layer.init ⟨0, 0⟩) exSched).log) = [7] := by decide
+  rw [hh, hr] at h
+  rw [h]
+  decide
 
 /-- parent layer 2 relays to child 4 and never blocks itself -/
 private def exPTab : Table := [[], [.y 0 false, .ch 0, .y 3 false]]
